@@ -273,8 +273,15 @@ class Translator:
     def is_rc_stmt(self, s):
         if not isinstance(s, (ast.Expr, ast.Assign)):
             return False
-        v = s.value
+        v = self.rc_unwrap(s.value)
         return isinstance(v, ast.Call) and ast.unparse(v.func) == self.rc[0]
+
+    def rc_unwrap(self, v):
+        """opts['rc_wrapper'] = 'self._set_process': the recorded call may be the single argument of that call"""
+        w = self.cur.opts.get("rc_wrapper")
+        if w and isinstance(v, ast.Call) and ast.unparse(v.func) == w and len(v.args) == 1 and not v.keywords:
+            return v.args[0]
+        return v
 
     def assigned(self, stmts):
         out = []
@@ -354,7 +361,7 @@ class Translator:
         if isinstance(s, ast.Expr) and isinstance(s.value, ast.Constant) and isinstance(s.value.value, str):
             return k()
         if self.rc and self.is_rc_stmt(s):
-            call = s.value
+            call = self.rc_unwrap(s.value)
             kws = {kw.arg: kw.value for kw in call.keywords}
             if call.args:
                 self.err(s, "returns_call with positional args")
